@@ -91,6 +91,7 @@ var profiles = map[string]Profile{
 }
 
 type Gen struct {
+	lastAct *wire.Action
 	crowd   bool
 	noProbe bool
 	rnd     *rand.Rand
@@ -354,6 +355,11 @@ func (g *Gen) RequestOf(c int, forceKind string) *wire.Req {
 			if g.rnd.Intn(20) > 0 {
 				a.Ts = &wire.Ts{Secs: secsPool[g.rnd.Intn(len(secsPool))], Nanos: nanosPool[g.rnd.Intn(len(nanosPool))]}
 			}
+			// now and then the very action sent last, again, with other data: same entity, same name, same timestamp
+			if g.lastAct != nil && g.rnd.Intn(5) == 0 {
+				a = &wire.Action{Eid: g.lastAct.Eid, Name: g.lastAct.Name, Ts: g.lastAct.Ts, Data: g.smallBytes()}
+			}
+			g.lastAct = a
 			r.Act = a
 		}
 	case "assetAdd":
